@@ -17,10 +17,9 @@ import (
 	"verifharness/lib"
 )
 
-// Demonstration of D-C20b (not fixed in /repo): on the QUIC/SCION path exchangeKeys discards the
-// Data returned by dialQUIC, so the defaults "key-exchange host, port 10123" are never applied
-// and the fields of the previous exchange survive.  Opt-in (C20_QUIC=1): the cases it writes
-// are rejected by the oracle on the current tree.  The scripted peer is the project's own
+// The QUIC/SCION path of exchangeKeys (D-C20b, repaired in /repo: the Data returned by dialQUIC used to be
+// discarded, so the defaults "key-exchange host, port 10123" were never applied and the fields of the
+// previous exchange survived).  Runs by default; C20_QUIC=0 switches it off.  The scripted peer is the project's own
 // scion.ListenQUIC; both ends are in one AS (empty path).
 func runQUIC(r *lib.Rng, hist [][]rec) {
 	ctx := context.Background()
